@@ -47,6 +47,14 @@ def runCase (lines : Array String) : Array String := Id.run do
       | none =>
         d := { d with pending := true }
         out := out.push "shutdown blocked"
+    | ["shutdownc"] =>
+      -- a call with its own context, cancelled while the call is in progress: it returns at once if nothing is in flight
+      -- (and closes the store), otherwise the context's error (and touches nothing)
+      match shutdown { d.s with cancelled := decide (d.s.inflight ≠ 0) } true with
+      | some (s', o) =>
+        d := { d with s := { s' with cancelled := d.s.cancelled } }
+        out := out.push ("shutdownc " ++ showO o)
+      | none => out := out.push "shutdownc ?"
     | ["final"] => out := out.push s!"final closes={d.s.closes}"
     | _ => out := out.push ("bad-op " ++ l)
   return out
